@@ -19,9 +19,21 @@ def run(ctx, mod, path):
     if not cases:
         return 0
     by_cfg = {}
+    rc = 0
+    builds = [(c, e) for c, e in cases if e.get("suite") == "BUILD"]
+    cases = [(c, e) for c, e in cases if e.get("suite") != "BUILD"]
+    for c, e in builds:
+        # C18 BUILD: the recorded case is a cargo command line over /repo's current tree
+        from props import c18
+        fs = c.split("--features ", 1)[1].split(",") if "--features " in c else []
+        brc, out = c18.cargo_build(fs, "rp")
+        errs = [l for l in out.split("\n") if l.startswith("error")]
+        print("  [BUILD] %s\n     now : %s\n     recorded: %s" % (c[:300], "builds" if brc == 0 else "FAILS: " + " ;; ".join(errs[:4])[:600],
+                                                                  str(e.get("impl"))[:200]))
+        if brc != 0:
+            rc = 1
     for c, e in cases:
         by_cfg.setdefault((e.get("config", "default"), tuple(e.get("flags", []))), []).append((c, e))
-    rc = 0
     for (cfg, flags), lst in by_cfg.items():
         hb = ctx.harness(cfg)
         db = ctx.driver()
